@@ -30,23 +30,8 @@ variable (lg : List (Sym × Sym))
 
 /-- every registration call, accepted or rejected, with any arguments, keeps the registry
 well-formed -/
-theorem step_preserves_RegInv {r : Registry} (h : RegInv r) (op : RegOp) : RegInv (step lg r op).1 := by
-  cases op with
-  | addUnitBase qt name unit =>
-    have := addUnitBase_inv h qt name unit
-    simp only [step]
-    cases hs : addUnitBase r qt name unit with
-    | mk r1 o => rw [hs] at this; cases o <;> exact this
-  | addUnit qt name unit fb tb dc =>
-    have := addUnit_inv h qt name unit fb tb dc
-    simp only [step]
-    cases hs : addUnit r qt name unit fb tb dc with
-    | mk r1 o => rw [hs] at this; cases o <;> exact this
-  | addCategory a =>
-    have := addCategory_inv (lg := lg) h a
-    simp only [step]
-    cases hs : addCategory lg r a with
-    | mk r1 o => rw [hs] at this; cases o <;> exact this
+theorem step_preserves_RegInv {r : Registry} (h : RegInv r) (op : RegOp) : RegInv (step lg r op).1 :=
+  step_inv lg h op
 
 /-- … hence every history from a well-formed registry -/
 theorem run_preserves_RegInv {r : Registry} (h : RegInv r) (ops : List RegOp) : RegInv (run lg r ops) := by
@@ -108,25 +93,8 @@ theorem run_inv_disciplined (ops : List RegOp) (hd : Disciplined lg Registry.emp
 unchanged.  (The hypothesis is needed: `AddUnit` performs its second duplicate check after writing
 the symbol index; in a well-formed registry that check cannot fire.) -/
 theorem rejected_step_id {r r' : Registry} (h : RegInv r) {op : RegOp} {e : ErrKind}
-    (hs : step lg r op = (r', .error e)) : r' = r := by
-  cases op with
-  | addUnitBase qt name unit =>
-    simp only [step] at hs
-    unfold addUnitBase at hs
-    rcases addInfo_spec h qt unit (baseInfo name) with ⟨e', he⟩ | ⟨q, u, info, hqt, _, _, _, he⟩
-    · rw [he] at hs; cases hs; rfl
-    · rw [he, hqt] at hs; cases hs
-  | addUnit qt name unit fb tb dc =>
-    simp only [step] at hs
-    unfold addUnit at hs
-    rcases addInfo_spec h qt unit (mkInfo fb tb dc name) with ⟨e', he⟩ | ⟨q, u, info, _, _, _, _, he⟩
-    · rw [he] at hs; cases hs; rfl
-    · rw [he] at hs; cases hs
-  | addCategory a =>
-    simp only [step] at hs
-    rcases addCategory_spec lg r a with ⟨e', he⟩ | ⟨c, info, _, _, _, he⟩
-    · rw [he] at hs; cases hs; rfl
-    · rw [he] at hs; cases hs
+    (hs : step lg r op = (r', .error e)) : r' = r :=
+  rejected_id lg h hs
 
 /-- … at any point of any history -/
 theorem rejected_step_id_in_history (before : List RegOp) {op : RegOp} {r' : Registry} {e : ErrKind}
